@@ -7,3 +7,9 @@ const On = false
 
 // Reset is a no-op with the stock runtime.
 func Reset() {}
+
+// SetDelay is a no-op with the stock runtime.
+func SetDelay(at int, starve bool) {}
+
+// DelayCount is 0 with the stock runtime.
+func DelayCount() int { return 0 }
